@@ -37,7 +37,7 @@ cp "$SRC/README.md" "$OUT/README.agent.md" 2>/dev/null
 if [ "${SEED_SCRATCH:-0}" = "1" ]; then
   (cd "$WT" && git checkout -q -- . && git clean -fdq && git apply "$SRC/patch.diff") || { res "apply to scratch failed"; exit 2; }
   for p in $PROPS; do
-    VERIF_REPO="$WT" VERIF_BUDGET_S=${SEED_BUDGET_S:-10} /verif/check $p quick > "$OUT/check_$p.log" 2>&1
+    VERIF_EVIDENCE_DIR="$OUT/evidence" VERIF_REPO="$WT" VERIF_BUDGET_S=${SEED_BUDGET_S:-10} /verif/check $p quick > "$OUT/check_$p.log" 2>&1
     rc=$?
     res "check $p: exit=$rc $(grep -c '^VIOLATION' "$OUT/check_$p.log") violation line(s); first signature: $(grep -m1 'signature:' "$OUT/check_$p.log")"
   done
@@ -47,7 +47,7 @@ else
   if ! git -C /repo diff --quiet; then echo "/repo dirty, abort"; exit 2; fi
   git -C /repo apply "$SRC/patch.diff" || { res "apply to /repo failed"; exit 2; }
   for p in $PROPS; do
-    VERIF_BUDGET_S=${SEED_BUDGET_S:-10} /verif/check $p quick > "$OUT/check_$p.log" 2>&1
+    VERIF_EVIDENCE_DIR="$OUT/evidence" VERIF_BUDGET_S=${SEED_BUDGET_S:-10} /verif/check $p quick > "$OUT/check_$p.log" 2>&1
     rc=$?
     res "check $p: exit=$rc $(grep -c '^VIOLATION' "$OUT/check_$p.log") violation line(s); first signature: $(grep -m1 'signature:' "$OUT/check_$p.log")"
   done
